@@ -35,23 +35,45 @@ def parseCEv (w : String) : Option CEv :=
   | ["t", st] => (Status.parse st).map .term
   | _ => none
 
+/-- `<tag>` (arrival) | `r:<prefix>:<iteration>[,<prefix>:<iteration>…]` (restore) -/
+def parseNEv (w : String) : Option NEv :=
+  if w.startsWith "r:" then
+    ((w.drop 2).toString.splitOn ",").mapM (fun (pr : String) => match pr.splitOn ":" with
+      | [a, b] => do
+          let x ← parseTag a
+          let y ← parseTag b
+          pure (x, y)
+      | _ => none) |>.map NEv.restore
+  else (parseTag w).map NEv.arrive
+
 def handle : List String → String
   | "loopout" :: m :: evs =>
       match (if m = "all" then some Method.all else if m = "last" then some Method.last else none), evs.mapM parseEv with
       | some meth, some es => renderSt (run meth es)
       | _, _ => "bad-op"
+  | "loopoutprov" :: m :: evs =>
+      match (if m = "all" then some Method.all else if m = "last" then some Method.last else none), evs.mapM parseEv with
+      | some meth, some es =>
+          let ps := runProv meth {} es
+          if ps.isEmpty then "-" else ";".intercalate (ps.map (fun p => renderTag' p.1 ++ "<-[" ++
+            ",".intercalate (p.2.map (fun x => renderTag' x.tag ++ ":" ++ toString x.val)) ++ "]"))
+      | _, _ => "bad-op"
   | "number" :: ts =>
-      match ts.mapM parseTag with
-      | some l => if l.isEmpty then "-" else " ".intercalate ((numberAll (fun _ => none) l).map renderTag)
+      match ts.mapM parseNEv with
+      | some l =>
+          let out := numberEvs (fun _ => none) l
+          if out.isEmpty then "-" else " ".intercalate (out.map renderTag)
       | none => "bad-op"
   | "checklist" :: evs =>
       match evs.mapM parseCEv with
       | some es =>
-          -- after every event: is the port still read?
-          let (_, trace) := es.foldl (fun (acc : CSt × List String) e =>
-            let s' := cstep acc.1 e
-            (s', acc.2 ++ [if s'.reading then "r" else "x"])) (({} : CSt), [])
-          if trace.isEmpty then "-" else "".intercalate trace
+          -- after every event: is the port still read?  then the output port log and the termination status
+          let (fin, trace) := es.foldl (fun (acc : LCSt × List String) e =>
+            let s' := lcstep acc.1 e
+            (s', acc.2 ++ [if s'.c.reading then "r" else "x"])) (({} : LCSt), [])
+          (if trace.isEmpty then "-" else "".intercalate trace) ++ "|out=" ++
+            (if fin.out.isEmpty then "-" else ",".intercalate (fin.out.map renderTag)) ++ "|term=" ++
+            (match fin.terminated with | some st => st.render | none => "-")
       | none => "bad-op"
   | _ => "bad-op"
 
